@@ -20,5 +20,32 @@ for fn in prog.all_funcs():
         "defs": {k: " ".join(ast.unparse(e).split()) for k, e in sorted(Resolver(fn.node).defs.items())},
         "returns": sorted(" ".join(ast.unparse(r.value).split()) if r.value is not None else "None" for r in walk_own(fn.node) if isinstance(r, ast.Return)),
     }
+# module-level constants (UPPER_CASE names and compiled patterns) of every module
+consts = {}
+for rel, m in prog.modules.items():
+    d = {}
+    for st in m.tree.body:
+        tgt = None
+        if isinstance(st, ast.Assign) and len(st.targets) == 1 and isinstance(st.targets[0], ast.Name):
+            tgt, val = st.targets[0].id, st.value
+        elif isinstance(st, ast.AnnAssign) and isinstance(st.target, ast.Name) and st.value is not None:
+            tgt, val = st.target.id, st.value
+        def _constlike(x):
+            if isinstance(x, ast.Constant):
+                return isinstance(x.value, (int, str, float, bytes)) and not isinstance(x.value, bool)
+            if isinstance(x, ast.BinOp):
+                return _constlike(x.left) and _constlike(x.right)
+            if isinstance(x, ast.UnaryOp):
+                return _constlike(x.operand)
+            if isinstance(x, ast.Call) and isinstance(x.func, ast.Attribute) and x.func.attr == "compile" and isinstance(x.func.value, ast.Name) and x.func.value.id == "re":
+                return True
+            if isinstance(x, ast.Call) and isinstance(x.func, ast.Name) and x.func.id == "frozenset":
+                return True
+            return False
+        if tgt and not tgt.startswith("__") and _constlike(val):
+            d[tgt] = " ".join(ast.unparse(val).split())
+    if d:
+        consts[rel] = d
+out["<module constants>"] = consts
 json.dump(out, open(os.path.join(V, "selftest", "reviewed_shape.json"), "w"), indent=0, sort_keys=True)
 print(len(out), "functions")
